@@ -38,6 +38,8 @@ type Prog struct {
 	known       map[string]bool
 	transparent map[*ssa.Function]bool
 	allMod      []*ssa.Function
+	cellStores  map[string][]*ssa.Store
+	onceField   map[*ssa.FieldAddr]*ssa.Store
 }
 
 // Short converts a full package path of the module to its short name.
@@ -196,6 +198,13 @@ func (p *Prog) FnName(fn *ssa.Function) string {
 			if c, ok := curAliases.funcFwd[n]; ok {
 				return c
 			}
+			for _, suf := range []string{"$bound", "$thunk"} {
+				if strings.HasSuffix(n, suf) {
+					if c, ok := curAliases.funcFwd[strings.TrimSuffix(n, suf)]; ok {
+						return c + suf
+					}
+				}
+			}
 		}
 	}
 	return n
@@ -215,6 +224,19 @@ func (p *Prog) fnNameRaw(fn *ssa.Function) string {
 	pk := fnPkg(fn)
 	s := fn.RelString(pk) // (*sender).run  or Send
 	s = shorten(s)
+	// a method of a renamed type is named after the canonical type
+	if recv := fn.Signature.Recv(); recv != nil && curAliases != nil && len(curAliases.typeFwd) > 0 {
+		t := recv.Type()
+		if pt, ok := t.(*types.Pointer); ok {
+			t = pt.Elem()
+		}
+		if nt, ok := t.(*types.Named); ok && nt.Obj().Pkg() != nil {
+			q := Short(nt.Obj().Pkg().Path()) + "." + nt.Obj().Name()
+			if cq := canonTypeName(q); cq != q {
+				s = replaceTok(s, nt.Obj().Name(), cq[strings.LastIndex(cq, ".")+1:])
+			}
+		}
+	}
 	if pk != nil {
 		return Short(pk.Path()) + "." + s
 	}
